@@ -130,6 +130,50 @@ pub fn cases(_tier: &str, seed: u64) -> Vec<Case> {
             }
         }
     }
+    // records that carry a type without typed RDATA: RDLENGTH 0 on the wire (parsed), `RData::Empty(t)`
+    // and `RData::NULL(t, ..)` built by hand; the type a record matches is the type it reports
+    for (_, code) in IANA.iter().filter(|(_, c)| !matches!(TYPE::from(*c), TYPE::Unknown(_))) {
+        let t = TYPE::from(*code);
+        let mut wire = vec![0u8, 1, 0x80, 0, 0, 0, 0, 1, 0, 0, 0, 0, 1, b'a', 0];
+        wire.extend_from_slice(&code.to_be_bytes());
+        wire.extend_from_slice(&[0, 1, 0, 0, 0, 9, 0, 0]);
+        let mut variants: Vec<(&str, ResourceRecord)> = vec![
+            ("empty", ResourceRecord::new(Name::new_unchecked("a"), CLASS::IN, 9, RData::Empty(t))),
+            ("null-carried", ResourceRecord::new(Name::new_unchecked("a"), CLASS::IN, 9, RData::NULL(*code, simple_dns::rdata::NULL::new(b"x").unwrap()))),
+        ];
+        if let Some(x) = Packet::parse(&wire).ok().and_then(|p| p.answers.into_iter().next()) { variants.push(("parsed-empty", x.into_owned())); }
+        for (how, r) in variants {
+            if u16::from(r.rdata.type_code()) != *code { continue; } // what the record reports decides (NULL-carried OPT etc.)
+            for q in &qtypes {
+                let m = r.match_qtype(*q);
+                let mut c = Case::new(format!("match.qtype {} {}", code, u16::from(*q)), (m as u8).to_string()).tag("match.qtype").tag(how);
+                let want = match q { QTYPE::ANY => Some(true), QTYPE::TYPE(x) => Some(*x == t), QTYPE::MAILB => Some(t == TYPE::MB || t == TYPE::MG || t == TYPE::MR), _ => None };
+                if let Some(wm) = want { if wm != m { c = c.fail("match-qtype", format!("{} record of type {:?} vs question {:?}: {}", how, t, q, m)); } }
+                v.push(c);
+            }
+        }
+    }
+    // every class word on a received record, with and without RDATA: the supported classes (bit 15 apart)
+    // are accepted and reported as they are, every other class is an error - never an alias
+    for with_rdata in [false, true] {
+        for w in 0..=65535u16 {
+            let mut wire = vec![0u8, 1, 0x80, 0, 0, 0, 0, 1, 0, 0, 0, 0, 1, b'a', 0, 0, if with_rdata { 1 } else { 16 }];
+            wire.extend_from_slice(&w.to_be_bytes());
+            wire.extend_from_slice(&[0, 0, 0, 9]);
+            if with_rdata { wire.extend_from_slice(&[0, 4, 10, 0, 0, 1]); } else { wire.extend_from_slice(&[0, 0]); }
+            let parsed = Packet::parse(&wire);
+            let out = match &parsed { Ok(p) => format!("ok {}", crate::text::packet(p)), Err(_) => "err".to_string() };
+            let mut c = Case::new(format!("parse {}", crate::text::hex(&wire)), out).tag("record-class");
+            let low = w & 0x7FFF;
+            let supported = matches!(low, 1 | 2 | 3 | 4 | 254);
+            match &parsed {
+                Ok(p) => { if !supported { c = c.fail("class-alias", format!("a record with class word {:#06x} is accepted as {:?}", w, p.answers.first().map(|r| r.class))); }
+                           else if p.answers.first().map(|r| (r.class as u16, r.cache_flush)) != Some((low, w & 0x8000 != 0)) { c = c.fail("class-read", format!("class word {:#06x}", w)); } }
+                Err(_) => { if supported { c = c.fail("class-rejected", format!("a record of the supported class {:#06x} is rejected", w)); } }
+            }
+            v.push(c);
+        }
+    }
     for (cl, flush) in CLASSES.iter().flat_map(|c| [(*c, false), (*c, true)]) {
         let rr = ResourceRecord::new(Name::new_unchecked("a"), cl, 0, RData::A(simple_dns::rdata::A { address: 1 })).with_cache_flush(flush);
         let mut qs: Vec<QCLASS> = CLASSES.iter().map(|c| QCLASS::CLASS(*c)).collect();
